@@ -734,6 +734,10 @@ class CallMixin:
                 es = (v.s.elem if isinstance(v.s, SetS) else v.s.key).z3()
                 s1.assume(r.t >= 0)
                 s1.assume((r.t == 0) == (t == z3.K(es, z3.BoolVal(False))))
+                # Wit(s) is a chosen element of a non-empty set; cardinality one means s == {Wit(s)}
+                wit = ufunc("Wit", SetS(v.s.elem if isinstance(v.s, SetS) else v.s.key), v.s.elem if isinstance(v.s, SetS) else v.s.key)
+                s1.assume(z3.Implies(r.t > 0, z3.Select(t, wit(t))))
+                s1.assume((r.t == 1) == (t == z3.Store(z3.K(es, z3.BoolVal(False)), wit(t), True)))
                 res.append((s1, r))
             else:
                 n = INT.fresh("len")
